@@ -327,12 +327,16 @@ func (o *structFieldsCBOR) FromCBOR(dm cbor.DecMode, data []byte) error {
 
 	var mapLen int
 
+	// additional information 31 marks an indefinite-length map; a
+	// definite-length map may legitimately declare zero entries.
+	indefinite := additionalInfo == 31
+
 	mapLen, rest, err = processAdditionalInfo(additionalInfo, rest)
 	if err != nil {
 		return err
 	}
 
-	if mapLen != 0 {
+	if !indefinite {
 		o.Fields = make(map[int]cbor.RawMessage, mapLen)
 
 		for i := 0; i < mapLen; i++ {
@@ -341,7 +345,7 @@ func (o *structFieldsCBOR) FromCBOR(dm cbor.DecMode, data []byte) error {
 				return fmt.Errorf("map item %d: %w", i, err)
 			}
 		}
-	} else { // mapLen == 0 --> indefinite encoding
+	} else { // indefinite encoding
 		o.Fields = make(map[int]cbor.RawMessage)
 
 		i := 0
